@@ -3,7 +3,9 @@ package main
 import (
 	"encoding/json"
 	"fmt"
+	"math"
 	"reflect"
+	"sort"
 	"strings"
 
 	stackage "github.com/JesseCoretta/go-stackage"
@@ -74,6 +76,8 @@ func (n mnode) leaf() any {
 		return nil
 	case "op": // an Operator value stored as a plain leaf (a token list such as [cn = Jesse])
 		return stackage.Eq
+	case "num": // primitives of every numeric kind, by name (JSON replay keeps the name only)
+		return c04Numbers[fmt.Sprint(n.V)]
 	case "anyslice": // a []any without a label: nothing Marshal can convert, a value like any other
 		return []any{1, 2}
 	case "emptyslice":
@@ -85,6 +89,9 @@ func (n mnode) leaf() any {
 	}
 	return n.V
 }
+
+var c04Numbers = map[string]any{"int8": int8(-8), "int16": int16(-16), "int32": int32(-32), "int64 min": int64(math.MinInt64), "uint": uint(7), "uint8": uint8(255), "uint16": uint16(65535), "uint32": uint32(1) << 31,
+	"uint64 max": uint64(math.MaxUint64), "uintptr": uintptr(9), "float32": float32(0.1), "float64 tiny": math.SmallestNonzeroFloat64, "complex64": complex64(complex(0.1, 0.2)), "complex128": complex(1.5, -2.5), "rune": 'r'}
 
 func mOp(i int) stackage.Operator {
 	if i == -1 {
@@ -623,9 +630,24 @@ func c04Trees(c *Ctx) []mnode {
 			mnode{T: "stack", Kind: k, Share: true, Kids: []mnode{in, st}}, mnode{T: "stack", Kind: k, Share: true, Kids: []mnode{st, in, in}},
 			mnode{T: "stack", Kind: k, Share: true, Kids: []mnode{cd, st, cd}}, mnode{T: "stack", Kind: k, Share: true, Kids: []mnode{in, {T: "stack", Kind: "AND", Kids: []mnode{lf, in}}}})
 	}
+	// primitives of every numeric kind as elements and as Condition expressions
+	{
+		var names []string
+		for k := range c04Numbers {
+			names = append(names, k)
+		}
+		sort.Strings(names)
+		var all []mnode
+		for i, nm := range names {
+			lf := mnode{T: "leaf", V: nm, VT: "num"}
+			all = append(all, lf)
+			trees = append(trees, mnode{T: "stack", Kind: kindNames[i%5], Kids: []mnode{lf, {T: "cond", Kw: "n", Op: 1 + i%6, Kids: []mnode{lf}}, {T: "stack", Kind: "LIST", Kids: []mnode{leaves[0], lf}}}})
+		}
+		trees = append(trees, mnode{T: "stack", Kind: "AND", Kids: all})
+	}
 	// the long regime: wide stacks (well beyond the widths above), at the top, nested, as a Condition's
 	// expression, and with a nested Stack / Condition / nil somewhere in the middle
-	widths := []int{8, 9, 10, 17, 33}
+	widths := []int{8, 9, 10, 17, 33, 66, 70}
 	if !c.Quick() {
 		widths = []int{7, 8, 9, 10, 11, 16, 17, 32, 33, 65, 130}
 	}
